@@ -399,9 +399,15 @@ def main(argv):
             r += [None] * len(g) if (o is None or len(o) != len(g)) else [ch == "1" for ch in o]
         return r
 
-    all_idx = list(range(len(cases)))
+    # which operand pairs the MODEL is run on.  The implementation-level law below is checked on ALL
+    # pairs; since eval_binop on lists is proved to be mapM/mapM2 of the element operation, the groups
+    # that enumerate every element pair of the full pool (A, B, E [e] op [f]) are always run in full and
+    # the exhaustive small-list groups are thinned 1-in-3 (rotating with the seed) in the quick tier.
+    rot = seed % 3
+    all_idx = [i for i, (a, b, g) in enumerate(cases)
+               if thorough or not (g.startswith("C ") or g.startswith("E list(0..2)")) or i % 3 == rot]
     spec_idx = [i for i, (a, b, g) in enumerate(cases) if g.startswith("B ") or g.startswith("E [e]")]
-    spec_idx += [rng.below(len(cases)) for _ in range(500 if not thorough else 5000)]
+    spec_idx += [rng.choice(all_idx) for _ in range(500 if not thorough else 5000)]
     g1 = chunks(all_idx)
     g2 = chunks(spec_idx)
     exprs = ["agree_many P [%s]" % "; ".join('(%s, %s, "%s")' % (cq(cases[i][0]), cq(cases[i][1]), couts[i])
@@ -413,7 +419,8 @@ def main(argv):
     model_text = {}
     try:
         mouts = c.coq_eval_batch(REQ, "\n".join(defs), exprs + sexprs, "c11", shard=40)
-        model_ok = flags(mouts[:len(exprs)], g1)
+        for i, f in zip(all_idx, flags(mouts[:len(exprs)], g1)):
+            model_ok[i] = f
         spec_ok = flags(mouts[len(exprs):], g2)
         bad = [i for i in all_idx if model_ok[i] is False][:40]
         bad += [i for i, ok in zip(spec_idx, spec_ok) if ok is False][:10]
@@ -425,9 +432,9 @@ def main(argv):
                 model_text[i] = (t[k], t[len(bad) + k])
     except c.BrokenTie as e:
         res.tie_broken(e.what, e.detail)
-    if any(x is None for x in model_ok) and not res.broken:
+    if any(model_ok[i] is None for i in all_idx) and not res.broken:
         res.tie_broken("model evaluation for c11 returned no answer for %d operand pairs"
-                       % sum(1 for x in model_ok if x is None))
+                       % sum(1 for i in all_idx if model_ok[i] is None))
     c.log("model runs done %.1fs" % (time.time() - t0))
     mism = [i for i in all_idx if model_ok[i] is False]
     unmodelled = 0
@@ -438,7 +445,7 @@ def main(argv):
         ops = [OPS[j] for j in range(len(OPS)) if j >= len(ms) or j >= len(impl[i]) or ms[j] != impl[i][j]]
         j = OPS.index(ops[0]) if ops else 0
         res.tie_broken("correspondence C11/c11-binop: model (coq/Binop.v) and implementation disagree on %d of %d "
-                       "operand pairs" % (len(mism), len(cases)),
+                       "operand pairs" % (len(mism), len(all_idx)),
                        "first: (%s) %s (%s) ; model=%s impl=%s ; operators differing on this pair: %s"
                        % (a.src(), ops[0] if ops else "?", b.src(),
                           (ms + ["?"] * len(OPS))[j], (impl[i] + ["?"] * len(OPS))[j], " ".join(ops)))
@@ -543,7 +550,8 @@ def main(argv):
                                for i in [rng.below(len(cases)) for _ in range(4)]]
     res.coverage["traces_validated_against_impl"] = sum(1 for x in model_ok if x is True) * len(OPS)
     res.streams["c11-binop"] = {
-        "operand_pairs": len(cases), "operators_per_pair": len(OPS), "mismatching_pairs": len(mism),
+        "operand_pairs": len(cases), "operand_pairs_run_on_model": len(all_idx),
+        "operators_per_pair": len(OPS), "mismatching_pairs": len(mism),
         "model_unmodelled": unmodelled, "groups": groups, "shapes": shapes,
         "list_lengths": {str(k): v for k, v in sorted(lens.items())},
         "outcomes_per_operator": hist,
